@@ -20,6 +20,6 @@ PROP = dict(
         H(ST, "c43", "c43_query", "clock_offset reports offset estimate + standard deviation; unknown clock -> Err; clock_frequency correct where offset==frequency"),
         H(ST, "c43", "c43_steer", "system clock only: every set_frequency(x) has |x| <= max of that clock; frequency estimate changes by exactly fl(x - current); a step changes the offset estimate by the applied Duration (<= 2^-64 s + one rounding), system clock step moves filter time; other entries bit-identical", timeout=900),
         H(ST, "c43", "c43_steer_2", "the same with a second steered clock (non-system clock step absorbs -offset directly; each clock's steering leaves the other's entries bit-identical)", tier="thorough", timeout_thorough=1800),
-        H(ST, "c43", "c43_query_kf_frequency_is_offset", "FINDING (expected to fail until fixed): KalmanController::clock_frequency returns the offset estimate"),
+        H(ST, "c43", "c43_query_kf_frequency_is_offset", "FINDING (expected to fail until fixed): KalmanController::clock_frequency returns the offset estimate", timeout=900),
     ],
 )
